@@ -346,7 +346,12 @@ impl World {
 			false
 		};
 		let appeared: Vec<&String> = pb.iter().filter(|x| !pa.contains(x) && !ahead(x)).collect();
-		let lost: Vec<&String> = pa.iter().filter(|x| !pb.contains(x) && !x.starts_with("pending")).collect();
+		// (an abandoned payment that only waited for such uncommitted HTLCs is completed by the same
+		// disconnection and leaves the list as well)
+		let lost: Vec<&String> = pa
+			.iter()
+			.filter(|x| !pb.contains(x) && !x.starts_with("pending") && !x.starts_with("abandoned"))
+			.collect();
 		if !appeared.is_empty() || !lost.is_empty() {
 			self.violate(
 				"C12",
